@@ -9,6 +9,7 @@ import (
 	"bufio"
 	"flag"
 	"fmt"
+	"math/big"
 	"math/rand"
 	"os"
 	"runtime"
@@ -202,10 +203,11 @@ func genWW(g *gen, w *bufio.Writer, n int) {
 // ---------------------------------------------------------------- vector kernels
 
 // runVec runs a kernel with the destination arranged according to shape:
-//   sep     z is a separate buffer
-//   inplace z is x itself
-//   up      z overlaps x, starting k words above x's start (only shl10VU: high to low)
-//   down    z overlaps x, starting k words below x's start (only shr10VU: low to high)
+//
+//	sep     z is a separate buffer
+//	inplace z is x itself
+//	up      z overlaps x, starting k words above x's start (only shl10VU: high to low)
+//	down    z overlaps x, starting k words below x's start (only shr10VU: low to high)
 func runVec(name string, pure bool, shape string, k int, x, y []Word, s, r Word) ([]Word, Word) {
 	n := len(x)
 	xc := append([]Word(nil), x...)
@@ -699,7 +701,7 @@ func genDivRec(g *gen, w *bufio.Writer, n int) {
 		}
 		y := g.nvec(ly)
 		x := g.nvec(lx)
-		switch g.r.Intn(5) {
+		switch g.r.Intn(7) {
 		case 0: // leading parts equal
 			k := 1 + g.r.Intn(ly)
 			copy(x[lx-k:], y[ly-k:])
@@ -724,10 +726,57 @@ func genDivRec(g *gen, w *bufio.Writer, n int) {
 			q := g.nvec(1 + g.r.Intn(hb+3))
 			p, _, _ := runDec("mul", nil, q, y, 0)
 			x = p
+		case 4, 5: // maximal partial remainders: x = (Q*y - d)*B^k + low, so that the remainder handed to the next
+			// block agrees with the divisor in its leading words (the next block quotient is as large as it can be)
+			ql := []int{hb, hb - 1, hb + 1, ly / 4, 1 + g.r.Intn(hb+2)}[g.r.Intn(5)]
+			if ql < 1 {
+				ql = 1
+			}
+			k := []int{ly / 4, hb / 2, hb, 1 + g.r.Intn(hb+1), ly/4 + 1, ly/4 - 1}[g.r.Intn(6)]
+			if k < 1 {
+				k = 1
+			}
+			qv := g.nvec(ql)
+			if g.r.Intn(2) == 0 { // a round quotient: one significant word
+				for j := 0; j < ql-1; j++ {
+					qv[j] = 0
+				}
+			}
+			bq, by := wordsToBig(qv), wordsToBig(y)
+			t := new(big.Int).Mul(bq, by)
+			t.Sub(t, big.NewInt(int64(1+g.r.Intn(3))))
+			if t.Sign() > 0 {
+				sh := new(big.Int).Exp(new(big.Int).SetUint64(B), big.NewInt(int64(k)), nil)
+				t.Mul(t, sh)
+				t.Add(t, wordsToBig(g.vec(k)))
+				x = bigToWords(t)
+			}
 		}
 		xin := append([]Word(nil), x...)
 		yin := append([]Word(nil), y...)
 		q, r, msg := runDec("div", nil, x, y, 0)
 		fmt.Fprintf(w, "K dec div 30 10 50 0 | %s | %s | %s | %s | %s\n", ws(xin), ws(yin), ws(q), ws(r), msg)
 	}
+}
+
+func wordsToBig(w []Word) *big.Int {
+	r := new(big.Int)
+	b := new(big.Int).SetUint64(B)
+	for i := len(w) - 1; i >= 0; i-- {
+		r.Mul(r, b)
+		r.Add(r, new(big.Int).SetUint64(uint64(w[i])))
+	}
+	return r
+}
+
+func bigToWords(v *big.Int) []Word {
+	var out []Word
+	b := new(big.Int).SetUint64(B)
+	t := new(big.Int).Set(v)
+	m := new(big.Int)
+	for t.Sign() > 0 {
+		t.DivMod(t, b, m)
+		out = append(out, Word(m.Uint64()))
+	}
+	return out
 }
